@@ -16,7 +16,8 @@ RULE = (
     "Corpus structures (quick: 12 files; thorough: all that fit) under Hypothesis-drawn transformations: "
     "(1) proper rotation (uniform quaternion or one of the 24 exact axis permutations) + translation up to +-500 A; "
     "(2) permutation of the atoms inside every residue; (3) order-preserving chain renaming and per-chain strictly "
-    "increasing residue renumbering (constant offset when gap detection is on); (4) re-serialisation of the same "
+    "increasing residue renumbering (constant offset when gap detection is on; also onto shared numbers with insertion "
+    "codes 57, 57A, 57B, ... with author-only identities as PDB input has); (4) re-serialisation of the same "
     "atoms (coordinates rounded to 3 decimals) as PDB and as mmCIF by the harness emitters, read back through "
     "read_3d_structure, at the deposited position and (4') after a drawn axis rotation + translation by 0/-150/-300/-700/"
     "+300/+900/+1500 A per axis, so that coordinates fill their PDB columns (<= -100, >= 1000); combinations of (1)-(3) are drawn together. Oracle (metamorphic): the complete result of "
@@ -125,9 +126,25 @@ def transform(case):
     if rng is not None:
         for ri, r in enumerate(s3.residues):
             perms[ri] = list(rng.permutation(len(r.atoms)))
+    ident_fn = None
+    runs = case.get("icode_runs", 0)
+    if runs and not case["find_gaps"]:
+        # order-preserving renumbering onto shared numbers with insertion codes (57, 57A, 57B, 58, ...): the residues of
+        # a chain, in the order of their (number, insertion code), get number first + rank // runs and code by rank % runs
+        by_chain = {}
+        for ri, r in enumerate(s3.residues):
+            by_chain.setdefault(r.chain, []).append((r.number, r.icode or " ", ri))
+        new_id = {}
+        for ch, lst in by_chain.items():
+            lst.sort()
+            first = lst[0][0]
+            for rank, (_, _, ri) in enumerate(lst):
+                new_id[ri] = ((chain_map or {}).get(ch, ch), first + rank // runs, None if rank % runs == 0 else chr(64 + rank % runs))
+        ident_fn = lambda ri, ch, num: new_id[ri]
+        number_fn = None
     new = gen3d.rebuild(s3, point_fn=lambda xyz, ri, k: R @ xyz + t,
                         atom_order=(lambda ri, n: perms[ri]) if rng is not None else None,
-                        chain_map=chain_map, number_fn=number_fn)
+                        chain_map=chain_map, number_fn=number_fn, ident_fn=ident_fn)
     ident_map = {}
     for r_old, r_new in zip(s3.residues, new.residues):
         ident_map[(r_new.chain, r_new.number, r_new.icode)] = (r_old.chain, r_old.number, r_old.icode)
@@ -262,6 +279,8 @@ def classify(case):
             labs.append("chain-renaming")
         if tuple(case.get("renumber", [1, 0])) != (1, 0):
             labs.append("renumbering")
+        if case.get("icode_runs") and not case["find_gaps"]:
+            labs.append("renumbering-onto-insertion-codes")
         if case["find_gaps"]:
             labs.append("find_gaps")
         nontrivial = bool(info.get("nt")) and len(labs) > 1
@@ -295,6 +314,7 @@ def st_transform(files):
         "rename_chains": st.sampled_from(["", "", "Q", "z", "0"]),
         "renumber": st.sampled_from([[1, 0], [1, 0], [1, 1000], [1, -500], [2, 3], [3, 0]]),
         "find_gaps": st.booleans(),
+        "icode_runs": st.sampled_from([0, 0, 0, 2, 3]),
     })
 
 
